@@ -116,11 +116,15 @@ package gateway
 // (F19) restoring keeps every rule the user wrote: a rule that had no backendRefs to begin with (a redirect rule) is not a
 // rule the provider generated and stays; only rules emptied by taking the canary backend out are dropped.
 //@ ensures restore_keeps_user_rules_without_backends: weight != nil && *weight == -1 ==> (forall i :: 0 <= i && i < len(rules) ==> (len(old(rules[i].BackendRefs)) == 0 ==> (exists k :: 0 <= k && k < len(result) && len(result[k].BackendRefs) == 0 && result[k].Matches == old(rules[i].Matches))))
+// ... and every rule left without backendRefs after restoring is such a user rule: a rule that was emptied by taking
+// the canary backend out (a generated canary rule) is dropped, whatever filters it carries.
+//@ ensures restore_drops_emptied_rules: weight != nil && *weight == -1 ==> (forall k :: 0 <= k && k < len(result) ==> (len(result[k].BackendRefs) == 0 ==> (exists i :: 0 <= i && i < len(rules) && len(old(rules[i].BackendRefs)) == 0 && result[k].Matches == old(rules[i].Matches))))
 //@ ensures restore_builds_nothing_new: weight != nil && *weight == -1 ==> #headerRoutes == 0 && #weightRoutes == 0 && len(result) <= len(rules)
 //@ ensures match_step_uses_header_routes: !(weight != nil && *weight == -1) && len(matches) > 0 ==> #headerRoutes == 1 && #weightRoutes == 0
 //@ ensures weight_step_uses_weight_routes: !(weight != nil && *weight == -1) && len(matches) == 0 ==> #weightRoutes == 1 && #headerRoutes == 0 && len(result) == len(rules)
 //@ loop 1 invariant range: -1 <= rangeindex && rangeindex < len(rules) && len(desired) <= rangeindex + 1 && weight != nil && *weight == -1 && #headerRoutes == 0 && #weightRoutes == 0
 //@ loop 1 invariant user_rules_without_backends_kept: forall i :: 0 <= i && i <= rangeindex ==> (len(atloop(rules[i].BackendRefs)) == 0 ==> (exists k :: 0 <= k && k < len(desired) && len(desired[k].BackendRefs) == 0 && desired[k].Matches == atloop(rules[i].Matches)))
+//@ loop 1 invariant emptied_rules_dropped: forall k :: 0 <= k && k < len(desired) ==> (len(desired[k].BackendRefs) == 0 ==> (exists i :: 0 <= i && i <= rangeindex && len(atloop(rules[i].BackendRefs)) == 0 && desired[k].Matches == atloop(rules[i].Matches)))
 //@ loop 1 invariant rules_untouched: forall i :: 0 <= i && i < len(rules) ==> rules[i].BackendRefs == atloop(rules[i].BackendRefs) && rules[i].Matches == atloop(rules[i].Matches)
 //@ loop 1 invariant desired_fresh: (cap(desired) == 0 || fresh(desired)) && !fresh(rules)
 
